@@ -614,15 +614,21 @@ def gen_params_spec(rng, model=None):
     return spec
 
 
-def gen_fit_kw(rng, nkeys=None, invalid=False):
-    kw = {}
-    pool = ["model_key", "params_initial", "range_type", "range_x",
+FIT_KEYS = ["model_key", "params_initial", "range_type", "range_x",
             "segment", "weight_cp", "gcf_k", "optimal_fit_edelta",
             "optimal_fit_num_samples", "method", "method_kws", "x_axis",
             "y_axis"]
+
+
+def gen_fit_kw(rng, nkeys=None, invalid=False, force_key=None):
+    kw = {}
+    pool = FIT_KEYS
     if nkeys is None:
         nkeys = rng.choice([0, 1, 1, 2, 2, 3, 4])
-    for k in rng.sample(pool, nkeys):
+    chosen = rng.sample(pool, nkeys)
+    if force_key is not None:
+        chosen = [force_key] + [k for k in chosen if k != force_key]
+    for k in chosen:
         if k == "model_key":
             kw[k] = rng.choice(MODELS)
         elif k == "params_initial":
@@ -787,6 +793,47 @@ class CurveEngineC03:
                                   "correct_force_offset",
                                   "correct_tip_offset"],
                         "options": None})
+        if ops and rng.random() < 0.75:
+            # directed prefix: fit, change exactly one thing (which one
+            # rotates with the run index, so that every batch meets every
+            # key through every route), fit again
+            ops.append({"op": "fit", "kw": gen_fit_kw(
+                rng, nkeys=rng.choice([0, 1]))})
+            combos = [(route, k) for k in FIT_KEYS
+                      for route in ("fit", "setfp")] + \
+                [("nudge", None), ("nudge", None), ("details", None),
+                 ("emod", None), ("same_prep", None), ("getinit", None)]
+            route, key = combos[index % len(combos)]
+            if route == "fit":
+                ops.append({"op": "fit", "kw": gen_fit_kw(
+                    rng, nkeys=1, force_key=key)})
+            elif route == "setfp":
+                kw = gen_fit_kw(rng, nkeys=1, force_key=key)
+                ops.append({"op": "setfp", "key": key,
+                            "value": kw.get(key)})
+            elif route == "nudge":
+                ops.append(gen_nudge(rng))
+            elif route == "details":
+                ops.append({"op": "prep", "route": "details",
+                            "steps": ["compute_tip_position",
+                                      "correct_force_offset",
+                                      "correct_tip_offset"],
+                            "options": None})
+            elif route == "emod":
+                ops.append({"op": "emod", "samples": 6})
+                ops.append({"op": "setfp", "key": "optimal_fit_num_samples",
+                            "value": rng.choice([9, 5])})
+                ops.append({"op": "emod"})
+            elif route == "same_prep":
+                ops.append({"op": "prep", "route": rng.choice(
+                    ["apply", "fit_kw", "attr"]),
+                    "steps": ["compute_tip_position",
+                              "correct_force_offset", "correct_tip_offset"],
+                    "options": rng.choice([None, {}])})
+            else:
+                ops.append({"op": "getinit", "model_key": rng.choice(
+                    [None] + MODELS)})
+            ops.append({"op": "fit", "kw": {}})
         while len(ops) < nops:
             r = rng.random()
             if r < (0.3 if swarm["prep_heavy"] else 0.12):
